@@ -120,7 +120,7 @@ CHECKS.update({
 CHECKS.update({
     "C09": dict(
         category="proof",
-        text="Partial. Lean 4 model of the configuration reader (reader.go: include stack of at most ten frames, line bookkeeping, continuation lines, comment skipping, include lookup, pos.wrapErr) with the clause parsers as a parameter; theorems reader_terminates (potential function, every include graph), fuel_mono, wrapErr_in_range, pos_exists, invalid_clause_pos, reject_reported, depth_le_ten, depth_refused, edit_check_total. The real loader and the model run on the same scratch trees (grammar-derived texts, 16 mutation operators, arbitrary bytes, 13 kinds of include graphs): verdict, file:line, context window and include chain are compared; on every real outcome: no panic, no hang, position exists and is the first line of the rejected clause, the blamed clause is rejected when parsed alone.",
+        text="Partial. Lean 4 model of the configuration reader (reader.go: include stack of at most ten frames, line bookkeeping, continuation lines, comment skipping, include lookup, pos.wrapErr) with the clause parsers as a parameter; theorems reader_terminates (potential function, every include graph), fuel_mono, wrapErr_in_range, pos_exists, invalid_clause_pos, reject_reported, depth_le_ten, depth_refused, edit_check_total. The real loader and the model run on the same scratch trees (grammar-derived texts, 16 mutation operators, arbitrary bytes, 13 kinds of include graphs): verdict, file:line, context window and include chain are compared; on every real outcome: no panic, no hang, position exists and is the first line of the rejected clause, the blamed clause is rejected when parsed alone. Regenerated tie for the clause syntax: the translator harness/cmd/vregex turns the 33 compileRe literals of pkg/cmd into lean/ShkModel/Gen/ClauseRe.lean on every run; Model/Regex.lean has a declarative semantics and a leftmost-first backtracking matcher with capture spans (run_sound, run_complete for every regexp and string, find_sound/complete, and decide-checked facts over the regenerated table: anchored_all, clause_keywords, audience_clauses_word_verb ...); Go's FindStringSubmatchIndex vs the Lean matcher on generated lines (every span), and single clauses in their section: no regexp of the regenerated dispatch chain matches => the real loader answers unknown syntax at that line, and conversely.",
         note="Partial: the regexp-driven clause parsers and govaluate are not modelled (generated testing only, labelled so in the evidence); reader_terminates assumes a bound on file lengths. Known finding: the include chain names the line after each include directive (enshrined by testdata/parse/include).",
         technique="Lean 4 proof (reader transition system, potential function) + differential execution against the real loader"),
     "C20": dict(
@@ -141,7 +141,7 @@ CHECKS.update({
 CHECKS.update({
     "C14": dict(
         category="proof",
-        text="Partial. A translator (harness/cmd/vaccess: go/packages + go/ssa + VTA call graph) regenerates on every run the table of shared-memory accesses of pkg/cmd — goroutine roots, and for each the fields / globals / captured variables it reads or writes, with lock set, atomicity and position relative to the forks and joins of its children — as lean/ShkModel/Gen/Access.lean. Lean 4: an abstract fork/join/lock execution model with happens-before and Race; a hand-written ownership policy per location (initThenReadOnly, handoff, atomic, locked, perInstance, message); theorem discipline_sound (a table that passes disciplineOk admits no racing execution, any number of thread instances and events, by induction over the fork tree), table_ok (the regenerated table passes, decide +kernel), current_table_race_free. Dynamic cross-check and failing-input search: the binary built with Go's race detector on generated plays (spotlights, concurrent lines, auditors, repeats, failures, -S, signals); a race report is the replay.",
+        text="Partial. A translator (harness/cmd/vaccess: go/packages + go/ssa + VTA call graph) regenerates on every run the table of shared-memory accesses of pkg/cmd — goroutine roots, and for each the fields / globals / captured variables it reads or writes, with lock set, atomicity and position relative to the forks and joins of its children — as lean/ShkModel/Gen/Access.lean. Lean 4: an abstract fork/join/lock execution model with happens-before and Race; a hand-written ownership policy per location (initThenReadOnly, handoff, atomic, locked, perInstance, message); theorem discipline_sound (a table that passes disciplineOk admits no racing execution, any number of thread instances and events, by induction over the fork tree), table_ok (the regenerated table passes, decide +kernel), current_table_race_free. Message objects handed over a channel: the translator also emits sentThenWritten facts (a field written after the object was sent, through per-function send summaries), which disciplineOk rejects; the execution model has send / receive events. Dynamic cross-check and failing-input search: the binary built with Go's race detector on generated plays (spotlights, concurrent lines, auditors, repeats, failures, -S, signals); a race report is the replay.",
         note="Partial: the translator's facts and Go's synchronisation semantics are trusted; memory is named by type (per-instance objects assumed not shared between instances); objects sent over channels are assumed not touched by the sender afterwards; the one-minute hard-shutdown exit is outside the theorem; other packages are opaque to the static side (the race detector covers them dynamically: that is how the pkg/crdb/log race was found).",
         technique="Lean 4 proof (ownership discipline implies data-race freedom) over an access table regenerated from the source by a translator; Go race detector as failing-input search"),
 })
